@@ -840,12 +840,10 @@ theorem readLog_enc (cfg : Cfg) (g : Good cfg) (l : Log) (h : l.InRange) : readL
     readEvents_enc cfg g l.events _ (by have := encEvents_length l.events; omega) h.2]
   rfl
 
-/-- What an accepted log looks like with the repaired readers: an encoding of exactly the returned
-    events (up to Event3 padding), followed by a tail on which the event reader reported `io.EOF`.
-    The tail is empty for a complete log — and is the silently dropped part otherwise. -/
+/-- What an accepted log looks like with the repaired code: the input is an encoding of exactly the
+    returned events (up to Event3 padding) — no tail is dropped. -/
 theorem readEvents_canon {cfg : Cfg} (hs : cfg.strict = true) (fuel : Nat) {b r : Bytes} {es : List Event2}
-    (h : readEvents cfg fuel b = .ok es r) :
-    ∃ bs tail, b = bs ++ tail ∧ EventsEnc es bs ∧ readEvent2 cfg tail = .eof := by
+    (h : readEvents cfg fuel b = .ok es r) : EventsEnc es b := by
   induction fuel generalizing b es r with
   | zero => cases h
   | succ f ih =>
@@ -853,27 +851,32 @@ theorem readEvents_canon {cfg : Cfg} (hs : cfg.strict = true) (fuel : Nat) {b r 
     cases he : readEvent2 cfg b with
     | eof =>
       rw [he] at h
-      injection h with e1 e2
-      subst e1
-      exact ⟨[], b, rfl, rfl, he⟩
+      simp only [hs, if_true] at h
+      cases b with
+      | nil =>
+        simp only [List.isEmpty_nil, if_true] at h
+        injection h with e1 e2
+        subst e1
+        rfl
+      | cons x xs => simp at h
     | fail => rw [he] at h; cases h
     | ok e rest =>
       rw [he] at h
       simp only at h
       obtain ⟨tl, h1, h2⟩ := map_ok_inv h
       obtain ⟨k, hb, hin⟩ := readEvent2_canon hs he
-      obtain ⟨bs, tail, hr, henc, heof⟩ := ih h1
+      have henc := ih h1
       subst h2
-      exact ⟨encEvent2Pad e k ++ bs, tail, by rw [hb, hr, List.append_assoc], ⟨k, bs, rfl, hin, henc⟩, heof⟩
+      exact ⟨k, rest, hb, hin, henc⟩
 
 theorem readLog_canon {cfg : Cfg} (hs : cfg.strict = true) {b r : Bytes} {l : Log} (h : readLog cfg b = .ok l r) :
-    ∃ bs tail, b = bs ++ tail ∧ LogEnc l bs ∧ readEvent2 cfg tail = .eof := by
+    LogEnc l b := by
   obtain ⟨hdr, rest, h1, h2⟩ := andThen_ok_inv h
   obtain ⟨es, h3, h4⟩ := map_ok_inv h2
   obtain ⟨k, hb, hin⟩ := readPcrEvent_canon hs h1
-  obtain ⟨bs, tail, hr, henc, heof⟩ := readEvents_canon hs _ h3
+  have henc := readEvents_canon hs _ h3
   subst h4
-  exact ⟨encPcrEventPad hdr k ++ bs, tail, by rw [hb, hr, List.append_assoc], ⟨k, bs, rfl, hin, henc⟩, heof⟩
+  exact ⟨k, rest, hb, hin, henc⟩
 
 /-- fuel adequacy: with `length + 1` fuel the loop never stops for lack of fuel -/
 theorem readEvent2_consumes {cfg : Cfg} {b rest : Bytes} {e : Event2} (h : readEvent2 cfg b = .ok e rest) :
@@ -929,5 +932,39 @@ theorem readEvents_fuel (cfg : Cfg) (fuel : Nat) (b : Bytes) (hf : b.length < fu
       simp only
       have := readEvent2_consumes he
       rw [ih rest (by omega)]
+
+/-! ## the repaired readers do not depend on the reader kind -/
+
+theorem readBody_kind (k k' : RKind) (zf : Bool) (size : Nat) (b : Bytes) :
+    readBody ⟨true, k⟩ zf size b = readBody ⟨true, k'⟩ zf size b := by
+  simp [readBody]
+
+theorem readSizedArray_kind (k k' : RKind) (w : Nat) (b : Bytes) :
+    readSizedArray ⟨true, k⟩ w b = readSizedArray ⟨true, k'⟩ w b := by
+  simp only [readSizedArray, readBody_kind k k']
+
+theorem readEventData_kind (k k' : RKind) (b : Bytes) : readEventData ⟨true, k⟩ b = readEventData ⟨true, k'⟩ b := by
+  simp only [readEventData, readBody_kind k k']
+
+theorem readPcrEvent_kind (k k' : RKind) (b : Bytes) : readPcrEvent ⟨true, k⟩ b = readPcrEvent ⟨true, k'⟩ b := by
+  simp only [readPcrEvent, readEventData_kind k k']
+
+theorem readEvent2_kind (k k' : RKind) (b : Bytes) : readEvent2 ⟨true, k⟩ b = readEvent2 ⟨true, k'⟩ b := by
+  simp only [readEvent2, readEventData_kind k k']
+
+theorem readEvents_kind (k k' : RKind) (fuel : Nat) (b : Bytes) :
+    readEvents ⟨true, k⟩ fuel b = readEvents ⟨true, k'⟩ fuel b := by
+  induction fuel generalizing b with
+  | zero => rfl
+  | succ f ih =>
+    simp only [readEvents, readEvent2_kind k k']
+    cases readEvent2 ⟨true, k'⟩ b with
+    | eof => rfl
+    | fail => rfl
+    | ok e rest => simp only [ih]
+
+/-- repaired code: no zero-length Read is issued, so bytes.Buffer / os.File / bytes.Reader agree -/
+theorem readLog_kind_irrelevant (k k' : RKind) (b : Bytes) : readLog ⟨true, k⟩ b = readLog ⟨true, k'⟩ b := by
+  simp only [readLog, readPcrEvent_kind k k', readEvents_kind k k']
 
 end GceTcb.EventLog
